@@ -34,11 +34,11 @@ def norm_ctxs(case):
     return ctxs if len(ctxs) >= 3 else ctxs + [MODULE_CTX]
 
 
-def helper_src(fname, ci):
-    """a function defined in context ci that calls task.unique / task.name2id itself: when another context's task calls it,
-    pyscript switches the global context to ci for the duration of the call"""
+def helper_src(ci):
+    """functions defined in context ci that call task.unique / task.name2id / task.sleep themselves: when another context's
+    task calls them, pyscript switches the task's global context to ci for the duration of the call (also while it sleeps)"""
     return [
-        f"def {fname}(tid, name, km):",
+        "def hx(tid, name, km):",
         f'    rec.mark(tid, "pre", [name, km, {ci}], task.name2id(), {ci})',
         "    task.unique(name, kill_me=km)",
         "    try:",
@@ -47,58 +47,106 @@ def helper_src(fname, ci):
         "        w = None",
         f'    rec.mark(tid, "post", [rec.who(w)], task.name2id(), {ci})',
         "",
+        "def hs(tid, secs):",
+        "    task.sleep(secs)",
+        f'    rec.mark(tid, "wake", None, task.name2id(), {ci})',
+        "",
+        f"rec.share({ci}, hx, hs)",
+        "",
     ]
 
 
-def module_src():
-    return "\n".join(["import vh.workers.c13_rec as rec", ""] + helper_src("hu", 2)) + "\n"
+def host_of(t):
+    """the script whose code makes the trigger function exist (differs from ctx when a factory of ctx is called from it)"""
+    return t.get("host", t["ctx"]) if t["ctx"] != 2 else t.get("host", 0)
 
 
-def script_for(case, ctx_id):
-    lines = ["import vh.workers.c13_rec as rec", "import pvh", ""] + helper_src("hx", ctx_id) + [f"rec.share({ctx_id}, hx)", ""]
-    for tid, t in enumerate(case["tasks"]):
-        if t["ctx"] != ctx_id or t["kind"] == "foreign":
-            continue
+def target_ctx(t, where):
+    """context of the helper an op goes through: 0 = none (inline, the function's own context), 1 = the other script,
+    2 = the imported module"""
+    if not where:
+        return t["ctx"]
+    if where == 2:
+        return 2
+    return 1 - host_of(t)
+
+
+def func_src(tid, t):
+    """source lines (unindented) of the pyscript function of task tid, to be placed in the file of context t["ctx"]"""
+    ci = t["ctx"]
+    lines = []
+    if t["kind"] != "created":
         lines.append(f'@event_trigger("pv_go_{tid}")')
-        if t["kind"] == "dec":
-            name, km = t["dec"]
-            lines.append(f"@task_unique({name!r}, kill_me={bool(km)!r})")
-        lines.append(f"def f{tid}():")
-        mk = lambda what, arg: f'rec.mark({tid}, "{what}", {arg}, task.name2id(), {ctx_id})'
-        body = [mk("begin", None)]
-        ended = False
-        for op in t["ops"]:
-            if op[0] == "u":
-                where = op[3] if len(op) > 3 else 0
-                name, km = op[1], bool(op[2])
-                if where == 0:
-                    body.append(mk("pre", f"[{name!r}, {km!r}, {ctx_id}]"))
-                    body.append(f"task.unique({name!r}, kill_me={km!r})")
-                    body += ["try:", f"    w = task.name2id({name!r})", "except NameError:", "    w = None"]
-                    body.append(mk("post", "[rec.who(w)]"))
-                else:
-                    if where == 1:
-                        body.append(f"rec.shared[{1 - ctx_id}]({tid}, {name!r}, {km!r})")
-                    else:
-                        body.append(f"pvh.hu({tid}, {name!r}, {km!r})")
-                    body.append(mk("ret", None))
-            elif op[0] == "s":
-                body.append(f"task.sleep({op[1] * TICK!r})" if op[1] > 0 else "task.sleep(0)")
+    if t["kind"] == "dec":
+        name, km = t["dec"]
+        lines.append(f"@task_unique({name!r}, kill_me={bool(km)!r})")
+    lines.append(f"def f{tid}():")
+    mk = lambda what, arg: f'rec.mark({tid}, "{what}", {arg}, task.name2id(), {ci})'
+    body = [mk("begin", None)]
+    ended = False
+    for op in t["ops"]:
+        where = op[3] if op[0] == "u" and len(op) > 3 else op[2] if op[0] == "s" and len(op) > 2 else 0
+        if op[0] == "u":
+            name, km = op[1], bool(op[2])
+            if not where:
+                body.append(mk("pre", f"[{name!r}, {km!r}, {ci}]"))
+                body.append(f"task.unique({name!r}, kill_me={km!r})")
+                body += ["try:", f"    w = task.name2id({name!r})", "except NameError:", "    w = None"]
+                body.append(mk("post", "[rec.who(w)]"))
+            else:
+                body.append(f"rec.shared[{target_ctx(t, where)}]({tid}, {name!r}, {km!r})")
+                body.append(mk("ret", None))
+        elif op[0] == "s":
+            secs = op[1] * TICK if op[1] > 0 else 0
+            if not where:
+                body.append(f"task.sleep({secs!r})")
                 body.append(mk("wake", None))
-            elif op[0] == "r":
-                body.append(mk("end", '"r"'))
-                body.append('raise ValueError("pv")')
-                ended = True
-                break
-            elif op[0] == "f":
-                body.append(mk("end", '"f"'))
-                body.append("return")
-                ended = True
-                break
-        if not ended:
+            else:
+                body.append(f"rec.shared_s[{target_ctx(t, where)}]({tid}, {secs!r})")
+                body.append(mk("ret", None))
+        elif op[0] == "c":
+            body.append(f"task.create(rec.funcs[{op[1]}])")
+            body.append(mk("ret", None))
+        elif op[0] == "r":
+            body.append(mk("end", '"r"'))
+            body.append('raise ValueError("pv")')
+            ended = True
+            break
+        elif op[0] == "f":
             body.append(mk("end", '"f"'))
-        lines += ["    " + b for b in body]
-        lines.append("")
+            body.append("return")
+            ended = True
+            break
+    if not ended:
+        body.append(mk("end", '"f"'))
+    lines += ["    " + b for b in body]
+    return lines
+
+
+def file_src(case, ci):
+    """source of the file of context ci (0/1: the scripts, 2: the module)"""
+    lines = ["import vh.workers.c13_rec as rec"] + (["import pvh"] if ci != 2 else []) + [""] + helper_src(ci)
+    setup = []
+    for tid, t in enumerate(case["tasks"]):
+        if t["kind"] == "foreign":
+            continue
+        host = host_of(t)
+        if t["ctx"] == ci:
+            if host == ci:
+                lines += func_src(tid, t) + [""]
+                if t["kind"] == "created":
+                    lines += [f"rec.reg_func({tid}, f{tid})", ""]
+            else:
+                # a trigger closure made by a factory of this context; the factory is called by code of context `host`
+                lines += [f"def make_{tid}():"] + ["    " + x for x in func_src(tid, t)] + [f"    return f{tid}", "",
+                                                                                         f"rec.reg_fac({tid}, make_{tid})", ""]
+        elif host == ci:
+            if t["ctx"] == 2:
+                lines += [f"keep_{tid} = pvh.make_{tid}()", ""]          # at load time, like a script using a module's factory
+            else:
+                setup.append(f"    keep.append(rec.facs[{tid}]())")        # from a task of this script, once everything is loaded
+    if ci != 2:
+        lines += ["keep = []", "", '@event_trigger("pv_setup")', "def pv_setup():"] + (setup or ["    pass"]) + [""]
     return "\n".join(lines) + "\n"
 
 
@@ -134,8 +182,7 @@ async def foreign_task(tid, t, ctx_name, ci):
 
 async def run_case(case):
     ctxs = norm_ctxs(case)
-    files = {ctx_file(c): script_for(case, i) for i, c in enumerate(ctxs[:2])}
-    files[ctx_file(ctxs[2])] = module_src()
+    files = {ctx_file(c): file_src(case, i) for i, c in enumerate(ctxs[:3])}
     errors = []
     rec.reset(ctxs)
     async with PyscriptEnv(files=files, legacy=bool(case["legacy"])) as env:
@@ -146,6 +193,9 @@ async def run_case(case):
         for c in ctxs:
             if GlobalContextMgr.get(c) is None:
                 errors.append(f"global context {c} not loaded")
+        env.hass.bus.async_fire("pv_setup", {})
+        await env.settle()
+        rec.seq.clear()
         base = loop.time()
         rec.START = base
         foreign = []
@@ -164,6 +214,8 @@ async def run_case(case):
             when = base + t["start"] * TICK
             if t["kind"] == "foreign":
                 loop.call_at(when, spawn, tid, t)
+            elif t["kind"] == "created":
+                pass                      # started by its creator's task.create()
             else:
                 loop.call_at(when, fire, tid)
         for tick in range(0, int(case["horizon"]) + 1):
